@@ -469,7 +469,7 @@ Fixpoint set_nth {A} (n : nat) (x : A) (l : list A) : list A :=
 
 Section Storage.
   Context {A : Type}.
-  Definition slot := option (Z * A).      (* None = empty slot (Path.t == 0) *)
+  Notation slot := (option (Z * A)).      (* None = empty slot (Path.t == 0) *)
 
   (* ---- StoreChildrenById: ids below the threshold are their own index, the others follow sequentially from 256 ---- *)
   Definition byid_threshold : Z := 256.
